@@ -766,6 +766,8 @@ class C04(PropertyCheck):
         "QipVerif.C04.shortcut_rows",
         "QipVerif.C04.shortcut_sound",
         "QipVerif.C04.signatures_agree",
+        "QipVerif.C04.import_faithful_partial",
+        "QipVerif.C04.cond_onebit",
         "QipVerif.C04.import_rejects_undeclared_gate",
         "QipVerif.C04.import_rejects_bad_argument",
         "QipVerif.C04.import_rejects_arity",
@@ -779,7 +781,10 @@ class C04(PropertyCheck):
     ]
     level_text = ("Lean 4 theorems: every qelib1.inc gate that the importer replaces by a library gate equals the standard's "
                   "expansion to U/CX up to one global phase for all parameters (23 matrix identities over C, 2x2/4x4/8x8); "
-                  "a statement-level model of the importer (tables regenerated from the source) provably rejects undeclared "
+                  "for every program of the class W0 (no user gate definitions; any registers, broadcast, barrier, measure, "
+                  "if-conditioned gates) that the standard accepts, a statement-level model of the importer (tables regenerated "
+                  "from the source) returns exactly the library gates of the standard's flat operations (refinement by "
+                  "induction over the statements); the model provably rejects undeclared "
                   "gates and registers, out-of-range indices and wrong arities, and is proved to deviate from the standard for "
                   "if-statements on registers of several bits (counter-examples). The model is tied to the code by a "
                   "correspondence on programs generated from the grammar and their malformed variants; the standard's "
